@@ -480,6 +480,75 @@ Theorem C11_source_relative_positioning O (HO : Py.ops_ok O) pos pos1 ltr0 ltr l
 Proof. exact (RP.gen_relative_if O HO pos pos1 ltr0 ltr l0 r0 t0 b0 rest0 l r t bo rest1 cbl ret1 ret2 tr). Qed.
 Print Assumptions C11_source_relative_positioning.
 
+(* ------------------------------------------------------------- float_width, find_float_position, float_layout head *)
+(* weasyprint/layout/float.py regenerated on every run (gen/GenFloatPos.v): float_width (without its min/max
+   decorator; shrink_to_fit an oracle), the whole body of find_float_position (avoid_collisions an oracle - its loop is
+   C11_source_avoid_loop above -, box.translate an external statement that moves the position, box.margin_width()
+   the model's margin_width: FP.ffp_calls) and the head of float_layout up to the clearance (resolve_percentages /
+   resolve_position_percentages external statements leaving the box in any state: FP.fl_calls). *)
+Require WV.gen.GenFloatPos WV.proofs.C11_gen_floatpos.
+Module FP := WV.proofs.C11_gen_floatpos.
+
+(* CSS 2.1 10.3.5: an auto width becomes the shrink-to-fit width for the containing block's width, any other width is
+   kept, nothing else of the box changes *)
+Theorem C11_source_float_width O (HO : Py.ops_ok O) (stf : Q -> Q) cf w rest cbw cbrest
+        (Hs : forall bx, Py.ocall O "shrink_to_fit" [Py.VObj cf; bx; Py.VNum cbw] = Py.VNum (stf cbw)) :
+  Py.run O GenFloatPos.float_width_body
+    [("box"%string, FP.wbox w rest); ("context"%string, Py.VObj cf);
+     ("containing_block"%string, Py.VObj (("width"%string, Py.VNum cbw) :: cbrest))]
+    (fun rho res => res = None /\
+                    Py.lookup "box" rho = FP.wbox (Some (match w with None => stf cbw | Some q => q end)) rest)
+    (fun _ => False).
+Proof. exact (FP.gen_float_width O HO stf cf w rest cbw cbrest Hs). Qed.
+Print Assumptions C11_source_float_width.
+
+(* the regenerated find_float_position returns the given box moved to the (x, y) of the hand model
+   find_float_position (model/C11Float.v), for every list of excluded shapes, kind of box and position, when the
+   oracle avoid_collisions answers what the model's avoid_collisions answers *)
+Theorem C11_source_find_float_position O (HO : Py.ops_ok O) b rest ax ay aw sr shapes crest cb px fuel cbx cbw rtl
+        (Hav : forall p, avoid_collisions fuel shapes cbx cbw rtl true (FP.with_py b p) = Some (ax p, ay p, aw p)) :
+  Py.run (FP.ffp_ops O b ax ay aw) GenFloatPos.find_float_position_body
+    [("context"%string, FP.ctxv sr shapes crest); ("box"%string, FP.fboxv b px (f_py b) rest);
+     ("containing_block"%string, Py.VObj cb)]
+    (fun rho res => exists X Y x y, res = Some (FP.fboxv b X Y rest) /\
+                                    find_float_position fuel shapes cbx cbw rtl b = Some (x, y) /\ X == x /\ Y == y)
+    (fun _ => False).
+Proof.
+  exact (FP.gen_find_float_position_model O HO b rest ax ay aw sr shapes crest cb px fuel cbx cbw rtl Hav).
+Qed.
+Print Assumptions C11_source_find_float_position.
+
+(* CSS 2.1 9.5.1 rules 5 and 6 about the box the regenerated code returns: its outer top is not above the position
+   it had, nor above the outer top of the float placed before it *)
+Theorem C11_source_find_float_position_not_above O (HO : Py.ops_ok O) b rest ax ay aw sr shapes crest cb px
+        fuel cbx cbw rtl (Hfl : floated b) (Hnz : ~ f_bh b == 0)
+        (Hav : forall p, avoid_collisions fuel shapes cbx cbw rtl true (FP.with_py b p) = Some (ax p, ay p, aw p)) :
+  Py.run (FP.ffp_ops O b ax ay aw) GenFloatPos.find_float_position_body
+    [("context"%string, FP.ctxv sr shapes crest); ("box"%string, FP.fboxv b px (f_py b) rest);
+     ("containing_block"%string, Py.VObj cb)]
+    (fun rho res => exists X Y, res = Some (FP.fboxv b X Y rest) /\ f_py b <= Y /\
+                                (shapes <> [] -> s_y (last shapes (mk_shape true 0 0 0 0)) <= Y))
+    (fun _ => False).
+Proof.
+  exact (FP.gen_find_float_position_not_above O HO b rest ax ay aw sr shapes crest cb px fuel cbx cbw rtl Hfl Hnz Hav).
+Qed.
+Print Assumptions C11_source_find_float_position_not_above.
+
+(* CSS 2.1 10.3.5 (and 10.6.7): after the head of float_layout none of the four margins is auto: an auto margin is 0,
+   a number is kept, the rest of the box is as resolve_position_percentages left it *)
+Theorem C11_source_float_layout_margins O (HO : Py.ops_ok O) cby b1 ml mr mt mb rest box0 cbw cbh cpy cbrest :
+  let z := fun o : oq => match o with Some q => q | None => 0 end in
+  Py.run (Py.with_calls O (FP.fl_calls cby b1 (FP.mbox ml mr mt mb rest))) GenFloatPos.float_layout_margins_body
+    [("box"%string, Py.VObj box0);
+     ("containing_block"%string,
+      Py.VObj (("width"%string, Py.VNum cbw) :: ("height"%string, FP.vo cbh) :: ("position_y"%string, Py.VNum cpy)
+               :: cbrest))]
+    (fun rho res => res = None /\
+                    Py.lookup "box" rho = FP.mbox (Some (z ml)) (Some (z mr)) (Some (z mt)) (Some (z mb)) rest)
+    (fun _ => False).
+Proof. exact (FP.gen_float_layout_margins O HO cby b1 ml mr mt mb rest box0 cbw cbh cpy cbrest). Qed.
+Print Assumptions C11_source_float_layout_margins.
+
 (* ------------------------------------------------------------- floats met inside a line box (inline.py) *)
 (* hand-written model of the waiting-float queue (model/C11Queue.v), tied to the source by the render stream
    inline-float-queue of harness/p_c11.py *)
